@@ -44,7 +44,7 @@ def fields (s : Str) : List Str := fieldsAux s []
 /-- `strings.SplitN(s, "=", 2)`: the part before the first `=` and, if there is one, the rest. -/
 def splitEq : Str → Str × Option Str
   | [] => ([], none)
-  | b :: r => if b == 61 then ([], some r) else ((b :: (splitEq r).1), (splitEq r).2)
+  | b :: r => if b == 61 then ([], some r) else match splitEq r with | (a, v) => (b :: a, v)
 
 def lastIndexAux (pat : Str) : Str → Nat → Option Nat → Option Nat
   | [], i, acc => if pat.isEmpty then some i else acc
